@@ -1,3 +1,4 @@
+import LP.Props.C13Count
 import LP.Props.C13Obs
 import LP.Props.GenTables
 import LP.Props.C13
@@ -27,3 +28,4 @@ import LP.Props.C13Int
 #print axioms LP.FSet.C13_isEmpty
 #print axioms LP.FSet.C13_isPoint
 #print axioms LP.FSet.C13_isFull
+#print axioms LP.FSet.C13_countInt
